@@ -186,6 +186,32 @@ Proof.
   intros Ht HA HB [(H1 & H2 & H3)|[(H1 & H2 & H3)|(H1 & H2)]]; unfold le_MM; subst; split; nia.
 Qed.
 
+(* pure arithmetic of one ascent step, on magnitudes (kept free of [Z.abs] so that the
+   product inequalities are found by explicit monotonicity, not by search) *)
+Lemma coef_arith3 t A B Q R X Y P D : 0 <= t -> 0 <= Q -> 0 <= Y -> 0 <= R -> B = A * Q + R ->
+  X <= R * t -> Y <= A * t -> P = Q * Y -> D <= X + P -> P <= B * t /\ D <= B * t.
+Proof.
+  intros Ht HQ HY HR HB HX HYA HP HD.
+  assert (H0 : 0 <= R * t) by (apply Z.mul_nonneg_nonneg; lia).
+  assert (H1 : Q * Y <= Q * (A * t)) by (apply Z.mul_le_mono_nonneg_l; lia).
+  assert (H2 : B * t = Q * (A * t) + R * t) by (subst B; ring).
+  lia.
+Qed.
+
+Lemma coef_arith2 t A B Q R Y P D : 0 <= t -> 0 <= Q -> 0 <= Y -> 1 <= A -> 0 <= R ->
+  B = A * Q + R -> Y <= t -> P = Q * Y -> D <= P -> P <= B * t /\ D <= B * t /\ Y <= A * t.
+Proof.
+  intros Ht HQ HY HA HR HB HYt HP HD.
+  assert (H1 : Q * Y <= Q * t) by (apply Z.mul_le_mono_nonneg_l; lia).
+  assert (H2 : 1 * Q <= A * Q) by (apply Z.mul_le_mono_nonneg_r; lia).
+  assert (H3 : Q * t <= B * t) by (apply Z.mul_le_mono_nonneg_r; lia).
+  assert (H4 : 1 * t <= A * t) by (apply Z.mul_le_mono_nonneg_r; lia).
+  lia.
+Qed.
+
+Lemma MM_bound B t : 0 <= B <= M -> 0 <= t <= M -> B * t <= M * M.
+Proof. intros HB Ht. apply Z.mul_le_mono_nonneg; lia. Qed.
+
 Lemma coef_step t a' b' y0 x0 : 0 <= t <= M -> a' <> 0 -> Z.abs a' <= M -> Z.abs b' <= M ->
   coef t (Z.abs (Z.rem b' a')) (Z.abs a') y0 x0 ->
   coef t (Z.abs a') (Z.abs b') (x0 - Z.quot b' a' * y0) y0 /\
@@ -198,31 +224,29 @@ Proof.
   pose proof (Z.abs_nonneg (Z.quot b' a')) as HQ0.
   pose proof (Z.abs_nonneg y0) as Hy0.
   pose proof (Z.abs_nonneg x0) as Hx0.
+  pose proof (Z.abs_nonneg b') as HB0.
   assert (HA1 : 1 <= Z.abs a') by lia.
   pose proof (Z.abs_triangle x0 (- (Z.quot b' a' * y0))) as Htri.
-  rewrite Z.abs_opp, Z.abs_mul in Htri.
+  rewrite Z.abs_opp in Htri.
   replace (x0 + - (Z.quot b' a' * y0)) with (x0 - Z.quot b' a' * y0) in Htri by ring.
-  set (Q := Z.abs (Z.quot b' a')) in *. set (R := Z.abs (Z.rem b' a')) in *.
-  set (A := Z.abs a') in *. set (B := Z.abs b') in *.
-  set (d := x0 - Z.quot b' a' * y0) in *.
-  assert (Hprod : Z.abs (Z.quot b' a' * y0) = Q * Z.abs y0) by (unfold Q; apply Z.abs_mul).
-  assert (HQA : Q * A <= B) by nia.
-  assert (HQB : Q <= B) by nia.
-  assert (Hcoef_prod : coef t A B d y0 /\ Q * Z.abs y0 <= B * t /\ Z.abs d <= M * M).
-  { destruct Hc as [(H1 & H2 & H3)|[(H1 & H2 & H3)|(H1 & H2)]].
-    - (* remainder 0: y0 = 0 *)
-      subst y0. rewrite Z.abs_0 in *.
-      split; [right; left; split; [lia|]; split; [lia|reflexivity]|]. split; nia.
-    - (* x0 = 0 *)
-      subst x0. rewrite Z.abs_0 in *.
-      assert (Q * Z.abs y0 <= B * t) by nia.
-      split; [right; right; split; nia|]. split; nia.
-    - assert (Q * Z.abs y0 <= Q * A * t) by nia.
-      assert (Q * A * t + R * t = B * t) by nia.
-      split; [right; right; split; nia|]. split; nia. }
-  destruct Hcoef_prod as (Hc' & Hp & Hd).
-  split; [exact Hc'|]. split; [|exact Hd].
-  unfold le_MM. rewrite Hprod. nia.
+  pose proof (Z.abs_mul (Z.quot b' a') y0) as Hprod.
+  unfold le_MM, coef.
+  generalize dependent (Z.abs (x0 - Z.quot b' a' * y0)). intros D Htri.
+  generalize dependent (Z.abs (Z.quot b' a' * y0)). intros P Hprod Htri.
+  pose proof (MM_bound (Z.abs b') t ltac:(lia) Ht) as HBt.
+  destruct Hc as [(H1 & H2 & H3)|[(H1 & H2 & H3)|(H1 & H2)]].
+  - (* remainder 0: y0 = 0, the pair is (x0, 0) *)
+    subst y0. rewrite Z.abs_0 in Hprod. rewrite Z.mul_0_r in Hprod. subst P.
+    assert (HD : D <= t) by lia.
+    assert (HtM : t <= M * M).
+    { assert (1 * t <= M * M) by (apply Z.mul_le_mono_nonneg; lia). lia. }
+    split; [right; left; split; [lia|]; split; [exact HD|reflexivity]|]. split; lia.
+  - (* x0 = 0 *)
+    subst x0. rewrite Z.abs_0 in *.
+    destruct (coef_arith2 t (Z.abs a') (Z.abs b') (Z.abs (Z.quot b' a')) (Z.abs (Z.rem b' a'))
+                (Z.abs y0) P D) as (Hp & Hd & Hy); lia.
+  - destruct (coef_arith3 t (Z.abs a') (Z.abs b') (Z.abs (Z.quot b' a')) (Z.abs (Z.rem b' a'))
+                (Z.abs x0) (Z.abs y0) P D) as (Hp & Hd); lia.
 Qed.
 
 Lemma chain_bound a b ai bi qs : chain a b ai bi qs -> Z.abs a <= M -> Z.abs b <= M ->
